@@ -116,6 +116,7 @@ VP_INLINE void rd(const P2& p) noexcept
     if (vp_win_readers(0) >= 2) vp_cover(7);    // two readers inside at the same time
     int a0 = p.a;
     int b0 = p.b;
+    vp_log(200, a0 * 100 + b0);
     vp_assert(a0 == b0, 200);
     vp_point();                                  // keep the handle for a while
     int a1 = p.a;
@@ -297,6 +298,7 @@ void vp_final()
     vp_assert(vp_mutex_owner(mtx) == 0, 110);
 #endif
     const P2* raw = reinterpret_cast<const P2*>(g_w);
+    vp_log(111, raw->a * 100 + raw->b);
     vp_assert(raw->a == raw->b, 111);
     if (vp_g(G_STORES) == 0) vp_assert(raw->a == vp_g(G_RMW), 112);   // no lost read-modify-write
     // every acquirer proceeds once holders released: a further exclusive acquisition succeeds
